@@ -27,7 +27,7 @@ def main():
             ("abs", "Gen_Families"), ("pert", "Gen_Families"), ("place", "Gen_Families"), ("placeflat", "Gen_Families"),
             ("conveyor", "Gen_Families"), ("pairs", "Gen_Families"), ("dag", "Gen_Families"), ("watch", "Gen_Families"),
             ("edge", "Gen_Families"), ("fixed", "Gen_Families"), ("half", "Gen_Families"), ("mainwp", "Gen_Families"),
-            ("due", "Gen_Families"), ("autocomp", "Gen_Families"),
+            ("due", "Gen_Families"), ("autocomp", "Gen_Families"), ("nest2", "Gen_Families"),
             ("sub", "Gen_Families"), ("sort", "Gen_Sort"), ("report", "Gen_Report"), ("histC08", "PdesyHist"),
             ("histC18", "PdesyHist")]
     with ThreadPoolExecutor(max_workers=6) as ex:
